@@ -27,6 +27,7 @@ TEXT_KEYISH = st.one_of(values.TEXT_SMALL, st.sampled_from(["'", '"', "a'b", '##
                         st.text(alphabet="ab'\"#$=,: []{}\\", max_size=6))
 param_values_full = values.json_values(text=TEXT_KEYISH, max_leaves=6)
 VALUE_STRATEGY = {'current': param_values}
+OB_MAPPING_ARGS = {'on': False}   # AutoParameterObject arguments that are mappings (C02 known finding apo-mapping-order)
 
 
 def _pv():
@@ -69,6 +70,8 @@ def programs(draw, max_modules=3, max_tasks=4, kinds=KINDS_BASIC, patterns=True,
             for k in keys:
                 p = {'name': k, 'cfg': None, 'ignore': False, 'dpdv': False, 'dtype': None}
                 flavour = draw(st.integers(0, 9))
+                if OB_MAPPING_ARGS['on'] and objects and draw(st.booleans()):
+                    flavour = 6
                 if flavour == 0:
                     p['cfg'] = k + '_cfg'
                 if flavour == 1:
@@ -79,7 +82,7 @@ def programs(draw, max_modules=3, max_tasks=4, kinds=KINDS_BASIC, patterns=True,
                 if flavour == 5 and k == 'path':
                     p['dtype'] = 'Path'
                 if flavour == 6 and objects:
-                    p['object'] = draw(st.sampled_from(['Oa', 'Ob']))
+                    p['object'] = 'Ob' if OB_MAPPING_ARGS['on'] else draw(st.sampled_from(['Oa', 'Ob']))
                 if flavour == 7:
                     p['dtype'] = draw(st.sampled_from(['int', 'str', 'list']))
                     if draw(st.booleans()):
@@ -200,8 +203,11 @@ def value_for(draw, plist):
             kw['w'] = draw(st.sampled_from([5, 6, 7]))
         if draw(st.booleans()):
             kw['verbose'] = draw(st.booleans())
-        return {'__object__': 'Ob', 'args': [draw(st.one_of(values.small_ints, values.TEXT_SMALL,
-                                                           st.lists(values.small_ints, max_size=3)))], 'kwargs': kw}
+        karg = st.one_of(values.small_ints, values.TEXT_SMALL, st.lists(values.small_ints, max_size=3))
+        if OB_MAPPING_ARGS['on']:
+            karg = st.one_of(karg, st.dictionaries(st.sampled_from(['a', 'b', 'c']), values.small_ints, min_size=2,
+                                                   max_size=3))
+        return {'__object__': 'Ob', 'args': [draw(karg)], 'kwargs': kw}
     if any(p.get('dtype') == 'Path' for p in plist):
         return draw(st.sampled_from(['/data/x', 'rel/y', '{DATA}/z', '.']))
     dts = {p['dtype'] for p in plist if p.get('dtype')}
@@ -303,17 +309,31 @@ def config_trees(draw, program, n_variants=None, allow_multi=True, allow_context
 
 
 def namespaces_of(case):
-    """All namespaces reachable from the root (model-independent helper for generation only)."""
+    """All namespaces reachable from the root (generation helper; follows multi-config parts)."""
     out = set()
+    seen = set()
 
-    def go(fi, ns):
+    def go(fi, part, ns):
+        if (fi, part, ns) in seen:
+            return
+        seen.add((fi, part, ns))
         out.add(ns)
-        for u in case['files'][fi]['node']['uses']:
-            sub = u['ns']
+        f = case['files'][fi]
+        if f.get('parts'):
+            if not part:
+                mains = [p for p, nd in f['parts'].items() if nd.get('main_part')]
+                part = mains[0] if mains else sorted(f['parts'])[0]
+            node = f['parts'].get(part)
+        else:
+            node = f['node']
+        if not node:
+            return
+        for u in node['uses']:
+            sub = u.get('ns')
             full = ns if not sub else (f'{ns}::{sub}' if ns else sub)
-            go(u['file'], full)
+            go(u['file'], u.get('part'), full)
 
-    go(case['root'], None)
+    go(case['root'], case.get('root_part'), None)
     return out
 
 
